@@ -43,7 +43,7 @@ func genC05(t *rapid.T) C05Case {
 		p.Nodes[0] = prog.Node{Op: stat, In: []int{0}}
 	}
 	v := p.Leaves[0].Vals
-	switch rapid.IntRange(0, 7).Draw(t, "valmode") {
+	switch rapid.IntRange(0, 8).Draw(t, "valmode") {
 	case 1: // all negative: exposes a fold identity of 0 in Max
 		for i := range v {
 			v[i] = -math.Abs(v[i]) - 0.3
@@ -70,6 +70,10 @@ func genC05(t *rapid.T) C05Case {
 				v[i] = 0.1 * float64(1+ref.Ravel(idx, sh)%7)
 			}
 		}
+	case 8: // whole numbers near 2^53 and 2^63 (sums beyond the int64 range, odd integers above 2^53)
+		for i := range v {
+			v[i] = rapid.SampledFrom([]float64{1 << 53, 1<<53 + 2, 1 << 61, 1 << 62, 6e18, 9e18, -(1 << 62), -6e18, 4611686018427387904, 3}).Draw(t, "bigint")
+		}
 	case 7: // small spread on a large common offset
 		off := rapid.SampledFrom([]float64{1e4, 1e6, -1e6, 1e8}).Draw(t, "offset")
 		for i := range v {
@@ -91,7 +95,22 @@ func genC05(t *rapid.T) C05Case {
 	c := C05Case{P: p}
 	if rapid.IntRange(0, 2).Draw(t, "more") == 0 {
 		rank := len(p.Leaves[0].Shape)
-		for k := rapid.IntRange(1, 3).Draw(t, "nmore"); k > 0; k-- {
+		nmore := rapid.IntRange(1, 3).Draw(t, "nmore")
+		if rapid.IntRange(0, 4).Draw(t, "manymore") == 0 {
+			nmore = rapid.IntRange(6, 12).Draw(t, "nmoremany") // a long series on one tensor object
+		}
+		if rank >= 3 && nmore >= 6 && rapid.Bool().Draw(t, "sweep") {
+			// one mean-type statistic along every dimension, then along every dimension again in
+			// another order
+			st := rapid.SampledFrom([]string{"mean", "avg", "var", "std", "sum"}).Draw(t, "sweepstat")
+			for pass := 0; pass < 2; pass++ {
+				for _, d := range rapid.Permutation(seq(rank)).Draw(t, "sweeporder") {
+					c.More = append(c.More, prog.Node{Op: st + "along", In: []int{0}, I: d})
+				}
+			}
+			nmore = 0
+		}
+		for k := nmore; k > 0; k-- {
 			st := rapid.SampledFrom(c05Stats).Draw(t, "morestat")
 			if rank >= 1 && rapid.Bool().Draw(t, "morealong") {
 				c.More = append(c.More, prog.Node{Op: st + "along", In: []int{0}, I: rapid.IntRange(0, rank-1).Draw(t, "moredim")})
@@ -148,7 +167,7 @@ func statOfFibre(stat string, f []float64) (want, tol float64) {
 }
 
 func checkC05(c C05Case) *Failure {
-	if len(c.P.Nodes) != 1 || len(c.P.Leaves) != 1 || len(c.More) > 8 {
+	if len(c.P.Nodes) != 1 || len(c.P.Leaves) != 1 || len(c.More) > 16 {
 		return failf("malformed case")
 	}
 	l := c.P.Leaves[0]
@@ -171,6 +190,9 @@ func checkC05(c C05Case) *Failure {
 	}
 	if len(c.More) > 0 {
 		evid.Class("C05.several_reductions_of_one_tensor")
+	}
+	if len(c.More) >= 6 {
+		evid.Class("C05.seven_or_more_reductions_of_one_tensor")
 	}
 	if err := lib.CheckAncestors(); err != nil {
 		return failf("after the reductions, %v", err)
